@@ -4505,6 +4505,10 @@ impl Lexer<'_> {
                 self.push_mode(LexerMode::WsOrCStyleCommentOnly);
             }
             '%' if is_valid_unicode_sas_name_start(self.cursor.peek_next()) => {
+                // Save position in the mode stack before macro lexing kicks in,
+                // as it may add new modes (and set a checkpoint). See below
+                let mode_stack_len = self.mode_stack.len();
+
                 self.start_token();
                 self.lex_macro_identifier(false);
 
@@ -4516,25 +4520,42 @@ impl Lexer<'_> {
                 if self.buffer.last_token_info().is_some_and(|ti| {
                     ![TokenType::KwmUntil, TokenType::KwmWhile].contains(&ti.token_type)
                 }) {
-                    self.push_mode(LexerMode::MacroEval {
-                        macro_eval_flags: MacroEvalExprFlags::new(
-                            MacroEvalNumericMode::Integer,
-                            MacroEvalNextArgumentMode::None,
-                            true,
-                            true,
-                            false, // doesn't matter really
-                        ),
-                        pnl: 0,
-                    });
-                    self.push_mode(LexerMode::WsOrCStyleCommentOnly);
-                    self.push_mode(LexerMode::ExpectSymbol(
-                        TokenType::ASSIGN,
-                        TokenChannel::DEFAULT,
-                    ));
-                    self.push_mode(LexerMode::WsOrCStyleCommentOnly);
-                    // Note the difference from below. We already lexed one part of the var name expr,
-                    // so we pass `true` and do not pass error, since it won't ever be emitted anyway
-                    self.push_mode(LexerMode::MacroNameExpr(true, None));
+                    // The macro call (or statement) lexed above may have populated its
+                    // own modes (and a checkpoint), which must be handled first. Hence
+                    // the loop var modes go below them, the same trick as with macro
+                    // calls in macro call argument names. Unlike pushing, this goes
+                    // in the same order we expect them to be handled, not reverse
+                    let loop_var_modes = [
+                        // Note the difference from below. We already lexed one part of the var name expr,
+                        // so we pass `true` and do not pass error, since it won't ever be emitted anyway
+                        LexerMode::MacroNameExpr(true, None),
+                        LexerMode::WsOrCStyleCommentOnly,
+                        LexerMode::ExpectSymbol(TokenType::ASSIGN, TokenChannel::DEFAULT),
+                        LexerMode::WsOrCStyleCommentOnly,
+                        LexerMode::MacroEval {
+                            macro_eval_flags: MacroEvalExprFlags::new(
+                                MacroEvalNumericMode::Integer,
+                                MacroEvalNextArgumentMode::None,
+                                true,
+                                true,
+                                false, // doesn't matter really
+                            ),
+                            pnl: 0,
+                        },
+                    ];
+                    let loop_var_modes_len = loop_var_modes.len();
+
+                    for mode in loop_var_modes {
+                        self.mode_stack.insert(mode_stack_len, mode);
+                    }
+
+                    // If the macro call has set a checkpoint, a rollback to it
+                    // must keep the modes we've just added
+                    if let Some(checkpoint) = self.checkpoint.as_mut() {
+                        if checkpoint.mode_stack_len >= mode_stack_len {
+                            checkpoint.mode_stack_len += loop_var_modes_len;
+                        }
+                    }
                 }
             }
             _ => {
